@@ -17,6 +17,9 @@ pub struct C14;
 
 const REPL: &str = "crate::prelude::Mark3";
 const CONV: &str = "crate::prelude::Mark5";
+const CONV_STR: &str = "crate::prelude::Mark6";
+
+const RENAMES: &[&str] = &["RenamedTarget", "RenamedTarget", "IORenamedTarget", "Renamed_Target_V2", "renamed_target_t"];
 
 fn conv_schema() -> Value {
     json!({"type": "integer", "format": "int32", "minimum": 7})
@@ -95,7 +98,9 @@ pub fn gen_c14_case(g: &mut G) -> Value {
             } else {
                 vec!["PartialEq".into()]
             };
-            s.patch.insert("Target".into(), Patch { rename: Some("RenamedTarget".into()), derives });
+            // the new name is taken as written: valid identifiers that are not canonical Pascal case too
+            let new_name = *g.pick(RENAMES);
+            s.patch.insert("Target".into(), Patch { rename: Some(new_name.into()), derives });
             which.push("patch");
         }
         if g.chance(1, 2) {
@@ -108,6 +113,12 @@ pub fn gen_c14_case(g: &mut G) -> Value {
             }
             s.convert.push(Convert { schema: cs, ty: CONV.into(), impls: vec!["Display".into(), "FromStr".into(), "Default".into()] });
             which.push("convert");
+        }
+        if g.chance(1, 4) {
+            // a conversion for the plain string schema: constrained strings are different schemas
+            // and keep their own types (the stand-in behaves like String on the wire)
+            s.convert.push(Convert { schema: json!({"type": "string"}), ty: CONV_STR.into(), impls: vec!["Display".into(), "FromStr".into(), "Default".into()] });
+            which.push("convert-string");
         }
         // (next to a patch the settings-wide derive repeats one of the patch's: harmless)
         if g.chance(if s.patch.is_empty() { 1 } else { 2 }, 3) {
@@ -178,6 +189,10 @@ impl Property for C14 {
             "the remaining types are the unrelated definitions: they neither reach the target nor contain the conversion schema".into(),
         ]
     }
+    fn chunk(&self) -> usize {
+        // two renderings of a large scaffold per case: smaller batches keep rustc's memory bounded
+        500
+    }
     fn generate(&self, tier: Tier, seed: u64) -> Vec<Value> {
         gen::draw(seed, "C14", tier.pick(160, 5000), gen_c14_case)
     }
@@ -233,7 +248,7 @@ impl Property for C14 {
         let expect_name: Option<(&str, bool)> = if s.replace.contains_key("Target") {
             Some(("Mark3", true))
         } else if s.patch.contains_key("Target") {
-            Some(("RenamedTarget", false))
+            Some((s.patch["Target"].rename.as_deref().unwrap_or("RenamedTarget"), false))
         } else {
             None
         };
@@ -242,8 +257,8 @@ impl Property for C14 {
             if ix.items.contains_key("Target") {
                 v.push(Violation::new(format!("{what}-target-still-generated"), "an item named Target is emitted".to_string()));
             }
-            if !is_replace && !ix.items.contains_key("RenamedTarget") {
-                v.push(Violation::new("patch-new-name-missing", "no item RenamedTarget".to_string()));
+            if !is_replace && !ix.items.contains_key(marker) {
+                v.push(Violation::new("patch-new-name-missing", format!("no item {marker}; items: {:?}", ix.items.keys().take(12).collect::<Vec<_>>())));
             }
             for (site, ty) in &sites {
                 match ty {
@@ -273,11 +288,11 @@ impl Property for C14 {
                 v.push(Violation::new(format!("{what}-old-name-remains"), format!("Target still mentioned in {:?}", &leftovers[..leftovers.len().min(4)])));
             }
             if !is_replace {
-                if let Some(it) = ix.items.get("RenamedTarget") {
+                if let Some(it) = ix.items.get(marker) {
                     let wanted = s.patch.get("Target").map(|p| p.derives.clone()).unwrap_or_default();
                     let missing: Vec<&String> = wanted.iter().filter(|w| !it.derives.iter().any(|d| &d == w)).collect();
                     if !missing.is_empty() {
-                        v.push(Violation::new("patch-derive-missing", format!("RenamedTarget lacks {:?}; it derives {:?}", missing, it.derives)));
+                        v.push(Violation::new("patch-derive-missing", format!("{marker} lacks {:?}; it derives {:?}", missing, it.derives)));
                     }
                 }
             }
@@ -294,7 +309,7 @@ impl Property for C14 {
                 }
             }
         }
-        if !s.convert.is_empty() {
+        if s.convert.iter().any(|c| c.ty == CONV) {
             for f in ["c1", "c2", "c3"] {
                 match field_ty(ix, "ConvHolder", f) {
                     Some(ty) if mentions(ty, "Mark5") => {}
@@ -390,9 +405,9 @@ impl Property for C14 {
                     o.remove("description");
                     o.remove("title");
                 }
-                bare == conv_schema() && c.ty == CONV
+                (bare == conv_schema() && c.ty == CONV) || (c.schema == json!({"type": "string"}) && c.ty == CONV_STR)
             })
-            && case.settings.patch.values().all(|p| p.rename.as_deref() == Some("RenamedTarget") && (p.derives == vec!["PartialEq".to_string()] || (matches!(kind, "struct" | "enum" | "newtype") && p.derives == ["PartialEq", "Eq", "Hash", "PartialOrd", "Ord"].iter().map(|d| d.to_string()).collect::<Vec<_>>())))
+            && case.settings.patch.values().all(|p| p.rename.as_deref().map(|r| RENAMES.contains(&r)).unwrap_or(false) && (p.derives == vec!["PartialEq".to_string()] || (matches!(kind, "struct" | "enum" | "newtype") && p.derives == ["PartialEq", "Eq", "Hash", "PartialOrd", "Ord"].iter().map(|d| d.to_string()).collect::<Vec<_>>())))
             && case.settings.map_type.as_ref().map(|m| MAP_TYPES.contains(&m.as_str())).unwrap_or(true)
             && case.settings.derives.iter().all(|d| d == "PartialEq")
             && case.settings.type_mod.is_none()
